@@ -14,6 +14,8 @@ from harness import batcher  # stubs for queue / events (no blocking: async hand
 from aws_durable_execution_sdk_python.exceptions import OrphanedChildException
 from aws_durable_execution_sdk_python.lambda_service import OperationAction, OperationType
 from aws_durable_execution_sdk_python.state import ExecutionState
+from aws_durable_execution_sdk_python.config import CompletionConfig
+from aws_durable_execution_sdk_python.concurrency.models import BatchItemStatus
 
 A = OperationAction
 ASSUMPTIONS = [
@@ -184,3 +186,103 @@ from harness import C16 as _C16  # noqa: E402
 
 replay_runs_no_unfinished_branch = _C16.batch_replay
 replay_runs_no_unfinished_branch.__module__ = __name__
+
+
+# ------------------------------------------------------------------------------------------------ executor level: a live orphan branch is stopped
+from harness import exec_world as XW  # noqa: E402
+from harness.common import FakeState  # noqa: E402
+
+ASSUMPTIONS = ASSUMPTIONS + XW.ASSUMPTIONS_EXEC + [
+    "orphan_branch_stopped: the fake state delegates every hand-over to the orphan gate of a real ExecutionState (real create_checkpoint/_mark_orphans) before logging it",
+]
+
+
+class GateState(FakeState):
+    """FakeState whose create_checkpoint first passes the real orphan gate"""
+
+    def __init__(self):
+        super().__init__(None)
+        self.real = ExecutionState("arn", "t0", {}, None)
+        self.rejected = []
+
+    def create_checkpoint(self, operation_update=None, is_sync=True):
+        if operation_update is not None:
+            try:
+                self.real._orig_create_checkpoint(operation_update, is_sync=False)
+            except OrphanedChildException:
+                self.rejected.append(operation_update)
+                raise
+        return super().create_checkpoint(operation_update, is_sync)
+
+
+@h.lemma(timeout=400, funcs=FUNCS + ["concurrency.executor.ConcurrentExecutor.execute/_on_task_complete", "operation.child.child_handler", "context.DurableContext.step/wait/run_in_child_context"],
+         reach=("end", "orphan_stopped"),
+         bounds="parallel with min_successful=1: branch 0 succeeds and decides the operation; the surviving branch continues afterwards in one of 4 situations "
+                "(about to start a new step / a wait / a nested context with a step / to complete a step that was started before); the parent's completion record is "
+                "handed over before or after the survivor reached its own START (solver-chosen)")
+def orphan_branch_stopped(situation: int, parent_fails: bool):
+    """
+    pre: 0 <= situation < 4
+    post: True
+    """
+    from aws_durable_execution_sdk_python.config import Duration, ParallelConfig
+    from aws_durable_execution_sdk_python.identifier import OperationIdentifier
+    from aws_durable_execution_sdk_python.lambda_service import ContextOptions, ErrorObject, OperationSubType, OperationUpdate
+    from aws_durable_execution_sdk_python.operation.parallel import ParallelExecutor
+    from harness.C08 import mk_ctx
+
+    st = GateState()
+    root = mk_ctx(st)
+    exec_ctx = root.create_child_context("parop")
+    st.create_checkpoint(OperationUpdate.create_context_start(OperationIdentifier("parop", None, "par"), OperationSubType.PARALLEL), is_sync=False)
+    entered = []
+    gate = {"parent_done": False}
+
+    def complete_parent():
+        ident = OperationIdentifier("parop", None, "par")
+        if parent_fails:
+            st.create_checkpoint(OperationUpdate.create_context_fail(ident, ErrorObject("x", "T", None, None), OperationSubType.PARALLEL))
+        else:
+            st.create_checkpoint(OperationUpdate.create_context_succeed(ident, "[]", OperationSubType.PARALLEL, ContextOptions(False)))
+        gate["parent_done"] = True
+
+    def survivor(ctx):
+        def body(sc):
+            entered.append(("ufn", gate["parent_done"]))
+            if situation == 3 and not gate["parent_done"]:
+                complete_parent()      # the parent completes while this step's user function is running
+            return 1
+        if situation == 0:
+            return ctx.step(body, name="late-step")
+        if situation == 1:
+            return ctx.wait(Duration(5), name="late-wait")
+        if situation == 2:
+            return ctx.run_in_child_context(lambda c2: c2.step(body, name="inner"), name="late-ctx")
+        return ctx.step(body, name="running-step")
+
+    ex = ParallelExecutor.from_callables([lambda ctx: "fast", survivor], ParallelConfig(completion_config=CompletionConfig(min_successful=1)))
+    world = XW.World(never=[1])       # the survivor does not finish before the decision
+    (kind, val), _ = XW.run_execute(ex, world, state=st, parent_id="parop")
+    h.check(kind == "ret" and val.all[0].status is BatchItemStatus.SUCCEEDED and val.all[1].status is BatchItemStatus.STARTED)
+    if situation != 3:
+        complete_parent()
+    n_before = len(st.log)
+    # now the orphaned branch gets to run
+    pool = XW.VExecPool.last
+    f = [x for x in pool.running if x.args[1].index == 1][0]
+    try:
+        f.fn(*f.args)
+        outcome = "returned"
+    except OrphanedChildException:
+        outcome = "orphan"
+    except BaseException as e:  # noqa: BLE001
+        outcome = type(e).__name__
+    h.reach("orphan_stopped")
+    h.check(outcome == "orphan", "an orphaned branch must be stopped with OrphanedChildException at its next durable operation")
+    if situation != 3:
+        h.check(not [e for e in entered if e[1]], "a user function of the orphaned branch was entered after the parent's completion was handed over")
+    after = [u for (u, _s) in st.log[n_before:] if u is not None and not (u.operation_id == "parop")]
+    if situation == 3:
+        after = [u for u in after if u.action.value != "START"]
+    h.check(not after, "an update of the orphaned branch reached the pipeline after the parent's completion record")
+    h.end()
